@@ -29,7 +29,7 @@ def pre_sem(cls: int, init: int, gc: bool, ops: List[Tuple[int, int]]) -> bool:
 
 @harness(
     pre=pre_sem,
-    quick=dict(N=3, timeout=120),
+    quick=dict(N=3, timeout=300),
     thorough=dict(N=4, timeout=1500),
     nshards=dict(quick=16, thorough=49),
     reach=["over_release_raises"],
